@@ -54,7 +54,8 @@ def toolchain_lib():
 
 
 def rust_env():
-    e = {"CARGO_NET_OFFLINE": "true", "CARGO_TARGET_DIR": TARGET}
+    # RUSTC_ICE=0: the ICE hook of the rustfmt binary must not drop rustc-ice-*.txt files into the working directory
+    e = {"CARGO_NET_OFFLINE": "true", "CARGO_TARGET_DIR": TARGET, "RUST_BACKTRACE": "0", "RUSTC_ICE": "0"}
     ld = toolchain_lib()
     if ld:
         e["LD_LIBRARY_PATH"] = ld + (":" + os.environ["LD_LIBRARY_PATH"] if os.environ.get("LD_LIBRARY_PATH") else "")
@@ -477,10 +478,18 @@ def standard_run(prop, tier, seed, replay, *, dirs, props_file, trusted, gen_cas
                 disagreements.append((c, {"impl": ci, "model": cm}))
     nt = set()
     for c, r in zip(cases, impl):
+        if isinstance(r, dict) and "panic" in r:
+            continue
         if nontrivial(c, r):
             nt.add(case_hash(c))
     found = 0
     for c, r in zip(cases, impl):
+        if isinstance(r, dict) and "panic" in r:
+            # the implementation panicked where the model returns a value: a concrete input on which the modelled
+            # function does not behave as the property needs
+            if rep.violation("impl_panic", {"case": c, "impl": r}, "the implementation panicked on a generated case: %s" % str(r.get("panic"))[:300]):
+                found += 1
+            continue
         for key, what in oracle(c, r):
             if rep.violation(key, {"case": c, "impl": r}, what):
                 found += 1
